@@ -1,6 +1,7 @@
 package main
 
 import (
+	"sort"
 	"fmt"
 	"strings"
 
@@ -52,6 +53,10 @@ type Cli struct {
 	Dotu   bool    // dialect used to decode replies (set after version)
 	Msize  uint32
 	parsed int // bytes of the reply stream already split into frames
+	cWrites int
+	cStream []byte
+	cMarks  []cmark
+	cDotu   bool
 	Frames []Frame
 	Junk   []byte // unparseable tail
 }
@@ -77,35 +82,34 @@ func (c *Cli) Send(dotu bool, ms ...*wire.Msg) {
 
 func (c *Cli) SendRaw(b []byte) { c.End.Write(b) }
 
-// Collect splits everything the server has written so far into frames.
+// Collect splits everything the server has written so far into frames. The work done
+// by earlier calls is kept (as long as the dialect the replies are decoded in has not
+// changed since).
 func (c *Cli) Collect() []Frame {
-	var stream []byte
-	type mark struct {
-		off int
-		seq int64
+	rec := c.End.Received()
+	if c.cDotu != c.Dotu || c.cWrites > len(rec) {
+		c.cWrites, c.cStream, c.cMarks, c.parsed, c.Frames, c.cDotu = 0, nil, nil, 0, nil, c.Dotu
 	}
-	var marks []mark
-	for _, w := range c.End.Received() {
-		marks = append(marks, mark{w.Off, w.Seq})
-		stream = append(stream, w.Data...)
+	for _, w := range rec[c.cWrites:] {
+		c.cMarks = append(c.cMarks, cmark{w.Off, w.Seq})
+		c.cStream = append(c.cStream, w.Data...)
 	}
+	c.cWrites = len(rec)
+	stream := c.cStream
 	seqAt := func(off int) int64 {
-		var s int64
-		for _, m := range marks {
-			if m.off <= off {
-				s = m.seq
-			}
+		i := sort.Search(len(c.cMarks), func(i int) bool { return c.cMarks[i].off > off })
+		if i == 0 {
+			return 0
 		}
-		return s
+		return c.cMarks[i-1].seq
 	}
-	c.Frames = c.Frames[:0]
-	off := 0
+	off := c.parsed
 	for off+4 <= len(stream) {
 		sz := int(uint32(stream[off]) | uint32(stream[off+1])<<8 | uint32(stream[off+2])<<16 | uint32(stream[off+3])<<24)
 		if sz < 7 || off+sz > len(stream) {
 			break
 		}
-		raw := stream[off : off+sz]
+		raw := append([]byte{}, stream[off:off+sz]...)
 		f := Frame{Seq: seqAt(off), Off: off, Raw: raw}
 		m, _, err := wire.Decode(raw, c.Dotu)
 		if err != nil {
@@ -116,8 +120,14 @@ func (c *Cli) Collect() []Frame {
 		c.Frames = append(c.Frames, f)
 		off += sz
 	}
+	c.parsed = off
 	c.Junk = stream[off:]
 	return c.Frames
+}
+
+type cmark struct {
+	off int
+	seq int64
 }
 
 // Rpc sends one request, waits until nothing else can run, and returns the
